@@ -19,7 +19,7 @@ granularity of `Handler.Handle` / `LoadOrStore` / `LoadAndDelete` calls.
 -/
 namespace CoapVerif.Props.C08
 open CoapVerif CoapVerif.Model.Observe CoapVerif.Generated.Observe CoapVerif.Lemmas.Observe
-open CoapVerif.Spec.Observe (Obs fresh judgeFresh judgeSilent judgeOwnToken)
+open CoapVerif.Spec.Observe (judgeSilentF Obs fresh judgeFresh judgeSilent judgeOwnToken)
 
 theorem validSeq_iff (old new : Nat) (last now : Int) :
     validSeq old new (some last) now = true ↔
@@ -415,6 +415,240 @@ theorem run_silent (id : Nat) (evs : List Ev) : ∀ (s : State) (gone : Bool),
 theorem silent_after_cancel (id : Nat) (evs : List Ev) : judgeSilent id false (run {} evs).2 = true :=
   run_silent id evs {} false inv_init (fun h => by cases h)
 
+/-! ### Silence after a failed registration (histories in which every call refers to its own token) -/
+
+/-- the calls of a history are consistent when `regDone` / `regAbort` / `cancel` name the token their registration
+    was entered with (`toks` = tokens of the `reg` calls so far; the k-th `reg` call gets identity k).  The real API
+    cannot produce anything else: these are the continuations of one `NewObservation` call / the `Cancel` method of the
+    object it returned. -/
+def consistent : List Nat → List Ev → Bool
+  | _, [] => true
+  | toks, .reg tok :: r => consistent (toks ++ [tok]) r
+  | toks, .arrive _ _ _ _ _ :: r => consistent toks r
+  | toks, .regDone tok id :: r => (toks[id]? == some tok) && consistent toks r
+  | toks, .regAbort tok id :: r => (toks[id]? == some tok) && consistent toks r
+  | toks, .cancel tok id :: r => (toks[id]? == some tok) && consistent toks r
+
+/-- every table entry sits under the token its identity registered with -/
+def TokOK (s : State) (toks : List Nat) : Prop :=
+  toks.length = s.nextId ∧ ∀ e ∈ s.table, toks[e.id]? = some e.tok
+
+theorem tokOK_remove {s : State} {toks : List Nat} (h : TokOK s toks) (tok : Nat) (sg : List Sig) :
+    TokOK { s with table := remove s.table tok, sigs := sg } toks :=
+  ⟨h.1, fun e he => h.2 e (mem_remove.mp he).1⟩
+
+theorem tokOK_update {s : State} {toks : List Nat} (h : TokOK s toks) (tok : Nat) (st : ObsState) (sg : List Sig) :
+    TokOK { s with table := update s.table tok st, sigs := sg } toks := by
+  refine ⟨h.1, fun e' he' => ?_⟩
+  obtain ⟨a, ha, rfl⟩ := mem_update.mp he'
+  have := h.2 a ha
+  by_cases c : a.tok == tok <;> simpa [c] using this
+
+theorem goneOK_or {s : State} {g1 g2 : Bool} {id : Nat} (h1 : GoneOK s g1 id) (h2 : GoneOK s g2 id) (g : Bool)
+    (hg : g = true → g1 = true ∨ g2 = true) : GoneOK s g id := by
+  intro h
+  rcases hg h with h' | h'
+  · exact h1 h'
+  · exact h2 h'
+
+/-- the failing call's own entry (if it still has one) sits under `tok`, so removing `tok` makes `rid` gone-safe -/
+theorem goneOK_fail {s : State} {toks : List Nat} {gone : Bool} {id rid tok : Nat} (ht : TokOK s toks)
+    (hc : toks[rid]? = some tok) (h : GoneOK s gone id) (sg : List Sig) :
+    GoneOK { s with table := remove s.table tok, sigs := sg } (gone || rid == id) id := by
+  intro hg
+  by_cases c : rid = id
+  · subst c
+    constructor
+    · intro e he hid
+      obtain ⟨hm, hne⟩ := mem_remove.mp he
+      have := ht.2 e hm
+      rw [hid, hc] at this
+      exact hne (Option.some.inj this).symm
+    · have hlt : rid < toks.length := by
+        rcases Nat.lt_or_ge rid toks.length with h' | h'
+        · exact h'
+        · rw [List.getElem?_eq_none h'] at hc; cases hc
+      simp only; rw [← ht.1]; exact hlt
+  · have hg' : gone = true := by simpa [c] using hg
+    exact goneOK_remove h tok sg hg'
+
+/-- the same when nothing is stored under `tok` (the state does not change) -/
+theorem goneOK_fail_none {s : State} {toks : List Nat} {gone : Bool} {id rid tok : Nat} (ht : TokOK s toks)
+    (hc : toks[rid]? = some tok) (hl : lookup s.table tok = none) (h : GoneOK s gone id) :
+    GoneOK s (gone || rid == id) id := by
+  intro hg
+  by_cases c : rid = id
+  · subst c
+    constructor
+    · intro e he hid
+      have := ht.2 e he
+      rw [hid, hc] at this
+      exact lookup_none hl e he (Option.some.inj this).symm
+    · have hlt : rid < toks.length := by
+        rcases Nat.lt_or_ge rid toks.length with h' | h'
+        · exact h'
+        · rw [List.getElem?_eq_none h'] at hc; cases hc
+      rw [← ht.1]; exact hlt
+  · have hg' : gone = true := by simpa [c] using hg
+    exact h hg'
+
+theorem run_silentF (id : Nat) (evs : List Ev) : ∀ (s : State) (toks : List Nat) (gone : Bool),
+    Inv s → TokOK s toks → consistent toks evs = true → GoneOK s gone id →
+    judgeSilentF id gone (run s evs).2 = true := by
+  induction evs with
+  | nil => intro s toks gone _ _ _ _; rfl
+  | cons ev evs ih =>
+    intro s toks gone hinv ht hcons hg
+    simp only [run]
+    cases ev with
+    | reg tok =>
+      simp only [consistent] at hcons
+      simp only [step]
+      cases hl : lookup s.table tok with
+      | some e =>
+        simp only [List.singleton_append, judgeSilentF]
+        refine ih _ (toks ++ [tok]) _ ⟨hinv.tokInj, hinv.idInj, fun e he => Nat.lt_succ_of_lt (hinv.idLt e he)⟩ ?_ hcons ?_
+        · refine ⟨by simp [ht.1], fun e he => ?_⟩
+          have hlt : e.id < toks.length := by rw [ht.1]; exact hinv.idLt e he
+          rw [List.getElem?_append_left hlt]; exact ht.2 e he
+        · intro h
+          by_cases c : s.nextId = id
+          · subst c
+            exact ⟨fun e he hid => by have := hinv.idLt e he; omega, Nat.lt_succ_self _⟩
+          · have hg' : gone = true := by simpa [c] using h
+            exact ⟨(hg hg').1, Nat.lt_succ_of_lt (hg hg').2⟩
+      | none =>
+        simp only [List.singleton_append, judgeSilentF]
+        have hinv' : Inv (step s (.reg tok)).1 := step_inv s _ hinv
+        simp only [step, hl] at hinv'
+        refine ih _ (toks ++ [tok]) gone hinv' ?_ hcons ?_
+        · refine ⟨by simp [ht.1], fun e he => ?_⟩
+          simp only [List.mem_append, List.mem_singleton] at he
+          rcases he with he | he
+          · have hlt : e.id < toks.length := by rw [ht.1]; exact hinv.idLt e he
+            rw [List.getElem?_append_left hlt]; exact ht.2 e he
+          · subst he
+            simp only
+            rw [← ht.1]
+            simp
+        · intro h
+          refine ⟨?_, Nat.lt_succ_of_lt (hg h).2⟩
+          intro e he
+          simp only [List.mem_append, List.mem_singleton] at he
+          rcases he with he | he
+          · exact (hg h).1 e he
+          · subst he; have := (hg h).2; simp only; omega
+    | arrive tok code seq now tag =>
+      simp only [consistent] at hcons
+      simp only [step]
+      cases hl : lookup s.table tok with
+      | none =>
+        simp only [List.singleton_append, judgeSilentF]
+        exact ih _ toks gone hinv ht hcons hg
+      | some e =>
+        obtain ⟨hmem, htok⟩ := lookup_some hl
+        simp only []
+        have hg2 : ∀ (st : ObsState) (sg : List Sig), GoneOK { s with table := update s.table tok st, sigs := sg } gone id := by
+          intro st sg h
+          refine ⟨?_, (hg h).2⟩
+          intro e' he'
+          obtain ⟨a, ha, rfl⟩ := mem_update.mp he'
+          have := (hg h).1 a ha
+          by_cases c : a.tok == tok <;> simpa [c] using this
+        split
+        · simp only [List.singleton_append, judgeSilentF]
+          have : (!(gone && e.id == id)) = true := by
+            cases hgb : gone with
+            | false => simp
+            | true => have := (hg hgb).1 e hmem; simp [this]
+          rw [this, Bool.true_and]
+          exact ih _ toks gone (inv_update hinv tok _ _) (tokOK_update ht tok _ _) hcons (hg2 _ _)
+        · simp only [List.nil_append]
+          exact ih _ toks gone (inv_update hinv tok _ _) (tokOK_update ht tok _ _) hcons (hg2 _ _)
+    | regDone tok rid =>
+      simp only [consistent, Bool.and_eq_true, beq_iff_eq] at hcons
+      obtain ⟨hc, hcons⟩ := hcons
+      simp only [step]
+      cases hf : s.sigs.find? (fun g => g.id == rid) with
+      | none => simp only [List.nil_append]; exact ih _ toks gone hinv ht hcons hg
+      | some g =>
+        simp only []
+        cases hl : lookup s.table tok with
+        | none =>
+          simp only []
+          split
+          · simp only [List.singleton_append, judgeSilentF]
+            exact ih _ toks _ (inv_remove hinv tok _) (tokOK_remove ht tok _) hcons (goneOK_fail ht hc hg _)
+          · split
+            · simp only [List.singleton_append, judgeSilentF]
+              exact ih _ toks gone (inv_remove hinv tok _) (tokOK_remove ht tok _) hcons (goneOK_remove hg tok _)
+            · simp only [List.singleton_append, judgeSilentF]
+              exact ih _ toks gone ⟨hinv.tokInj, hinv.idInj, hinv.idLt⟩ ⟨ht.1, ht.2⟩ hcons hg
+        | some e =>
+          obtain ⟨hmem, htok⟩ := lookup_some hl
+          simp only []
+          split
+          · simp only [List.cons_append, List.nil_append, judgeSilentF]
+            refine ih _ toks _ (inv_remove hinv tok _) (tokOK_remove ht tok _) hcons ?_
+            refine goneOK_or (goneOK_fail ht hc hg _) (goneOK_after_remove hinv hg hmem htok _) _ ?_
+            intro h
+            simp only [Bool.or_eq_true] at h ⊢
+            rcases h with (h | h) | h
+            · exact Or.inl (Or.inl h)
+            · exact Or.inl (Or.inr h)
+            · exact Or.inr (Or.inr h)
+          · split
+            · simp only [List.cons_append, List.nil_append, judgeSilentF]
+              exact ih _ toks _ (inv_remove hinv tok _) (tokOK_remove ht tok _) hcons (goneOK_after_remove hinv hg hmem htok _)
+            · simp only [List.singleton_append, judgeSilentF]
+              exact ih _ toks gone ⟨hinv.tokInj, hinv.idInj, hinv.idLt⟩ ⟨ht.1, ht.2⟩ hcons hg
+    | regAbort tok rid =>
+      simp only [consistent, Bool.and_eq_true, beq_iff_eq] at hcons
+      obtain ⟨hc, hcons⟩ := hcons
+      simp only [step]
+      cases hl : lookup s.table tok with
+      | none =>
+        simp only [List.singleton_append, judgeSilentF]
+        exact ih _ toks _ hinv ht hcons (goneOK_fail_none ht hc hl hg)
+      | some e =>
+        obtain ⟨hmem, htok⟩ := lookup_some hl
+        simp only [List.cons_append, List.nil_append, judgeSilentF]
+        refine ih _ toks _ (inv_remove hinv tok _) (tokOK_remove ht tok _) hcons ?_
+        refine goneOK_or (goneOK_fail ht hc hg _) (goneOK_after_remove hinv hg hmem htok _) _ ?_
+        intro h
+        simp only [Bool.or_eq_true] at h ⊢
+        rcases h with (h | h) | h
+        · exact Or.inl (Or.inl h)
+        · exact Or.inl (Or.inr h)
+        · exact Or.inr (Or.inr h)
+    | cancel tok rid =>
+      simp only [consistent, Bool.and_eq_true, beq_iff_eq] at hcons
+      obtain ⟨_, hcons⟩ := hcons
+      simp only [step]
+      cases hl : lookup s.table tok with
+      | none => simp only [List.nil_append]; exact ih _ toks gone hinv ht hcons hg
+      | some e =>
+        obtain ⟨hmem, htok⟩ := lookup_some hl
+        simp only [List.singleton_append, judgeSilentF]
+        exact ih _ toks _ (inv_remove hinv tok _) (tokOK_remove ht tok _) hcons (goneOK_after_remove hinv hg hmem htok _)
+
+/-- **silent_after_failure**: in every history whose calls refer to their own tokens, once the registration call of
+    `id` reported an error — token in use, refused by the peer (code other than 2.05/2.03), context ended or
+    connection closed while waiting — or its clean-up took effect, its callback is never invoked again. -/
+theorem silent_after_failure (id : Nat) (evs : List Ev) (h : consistent [] evs = true) :
+    judgeSilentF id false (run {} evs).2 = true :=
+  run_silentF id evs {} [] false inv_init ⟨rfl, by simp⟩ h (fun h => by cases h)
+
+/-- why the consistency hypothesis is needed: a `regDone` that names a foreign token reports the failure of
+    registration 0 but cleans up under the wrong key, and the callback of 0 is invoked afterwards (the model's
+    `cleanUp` is by token, like the code's; the real API never pairs a call with a foreign token). -/
+example : judgeSilentF 0 false (run {} [.reg 7, .arrive 7 132 (some 5) 0 1, .regDone 9 0, .arrive 7 69 (some 6) 1 2]).2 = false := by
+  decide
+example : consistent [] [.reg 7, .arrive 7 132 (some 5) 0 1, .regDone 9 0, .arrive 7 69 (some 6) 1 2] = false := by decide
+/-- the consistent version of that history: registration 0 is refused with 4.04 and stays silent -/
+example : (run {} [.reg 7, .arrive 7 132 (some 5) 0 1, .regDone 7 0, .arrive 7 69 (some 6) 1 2]).2
+    = [.registered 0 7, .cb 0 7 (some 5) 0 1, .regErr 0, .cancelled 0, .toDefault 7 2] := by decide
+
 /-! ### Own token only -/
 
 theorem run_own_token (evs : List Ev) : ∀ (s : State) (regs : List (Nat × Nat)),
@@ -561,6 +795,13 @@ open CoapVerif.Props.C08
 #print axioms delivered_fresh
 #print axioms run_silent
 #print axioms silent_after_cancel
+#print axioms tokOK_remove
+#print axioms tokOK_update
+#print axioms goneOK_or
+#print axioms goneOK_fail
+#print axioms goneOK_fail_none
+#print axioms run_silentF
+#print axioms silent_after_failure
 #print axioms run_own_token
 #print axioms own_token_only
 #print axioms register_only_205_203
